@@ -390,6 +390,38 @@ def assignOf (vs : List V) (xs : List Rat) (w : V) : Rat :=
 def Prob.certOpt (p : Prob) (xs ys : List Rat) : Bool := p.closedB && p.toDense.checkOpt xs ys
 def Prob.certInfeas (p : Prob) (ys : List Rat) : Bool := p.closedB && p.toDense.checkInfeas ys
 
+/-! ### mixed-integer problems: enumeration of the binary variables -/
+
+/-- the binary variables of a problem, in order -/
+def Prob.binVars (p : Prob) : List V := (p.vars.filter (fun w => w.kind == .bin)).map (·.v)
+
+def lookupA (a : List (V × Rat)) (w : V) : Rat :=
+  match a with
+  | [] => 0
+  | q :: t => if q.1 = w then q.2 else lookupA t w
+
+/-- the problem with every binary variable fixed at the value `a` gives it (a continuous variable with coinciding bounds) -/
+def Prob.fix (p : Prob) (a : List (V × Rat)) : Prob :=
+  { p with vars := p.vars.map (fun w => if w.kind == .bin then ⟨w.v, .fin (lookupA a w.v), .fin (lookupA a w.v), .cont⟩ else w) }
+
+/-- all 0/1 assignments of a list of variables -/
+def allAssign : List V → List (List (V × Rat))
+  | [] => [[]]
+  | b :: bs => (allAssign bs).flatMap (fun a => [(b, 0) :: a, (b, 1) :: a])
+
+/-- certificate of one leaf of the enumeration: the leaf problem is infeasible, or has the certified optimum named -/
+inductive LeafCert where
+  | infeas (ys : List Rat)
+  | opt (xs ys : List Rat)
+
+/-- every leaf of a *minimisation* problem is certified infeasible or certified optimal with a value of at least `L` -/
+def Prob.certLeavesMin (p : Prob) (certs : List LeafCert) (L : Rat) : Bool :=
+  !p.dirMax && p.vars.all (fun w => w.kind != .int) &&
+  (allAssign p.binVars).length == certs.length &&
+  ((allAssign p.binVars).zip certs).all (fun q => match q.2 with
+    | .infeas ys => (p.fix q.1).certInfeas ys
+    | .opt xs ys => (p.fix q.1).certOpt xs ys && decide (L ≤ LPM.dot ((p.fix q.1).dense p.obj) xs))
+
 /-- the name the solver sees (`old`: the name the analysis gives its old-objective variable) -/
 def Net.vname (n : Net) (old : String) : V → String
   | .fwd i => (n.rx i).id
